@@ -218,6 +218,8 @@ sLUMemInit(fact_t fact, void *work, int_t lwork, int m, int n, int_t annz,
 	//nzlmax = SUPERLU_MAX(1, fill_ratio/4.) * annz;
 
 	if ( lwork == -1 ) {
+	    SUPERLU_FREE(Glu->expanders); /* size query keeps nothing */
+	    Glu->expanders = NULL;
 	    return ( GluIntArray(n) * iword + TempSpace(m, panel_size)
 		    + (nzlmax+nzumax)*iword + (nzlumax+nzumax)*dword + n );
         } else {
@@ -245,6 +247,8 @@ sLUMemInit(fact_t fact, void *work, int_t lwork, int m, int n, int_t annz,
 	    xusub  = suser_malloc((n+1) * iword, HEAD, Glu);
 	    if ( !xsup || !supno || !xlsub || !xlusup || !xusub ) {
 		/* work[] cannot even hold the pointer arrays */
+		SUPERLU_FREE(Glu->expanders);
+		Glu->expanders = NULL;
 		return (smemory_usage(nzlmax, nzumax, nzlumax, n) + n);
 	    }
 	    used0 = Glu->stack.used;
@@ -273,6 +277,15 @@ sLUMemInit(fact_t fact, void *work, int_t lwork, int m, int n, int_t annz,
 	    nzlmax /= 2;
 	    if ( nzlumax < annz ) {
 		printf("Not enough memory to perform factorization.\n");
+		if ( Glu->MemModel == SYSTEM ) {
+		    SUPERLU_FREE(xsup);
+		    SUPERLU_FREE(supno);
+		    SUPERLU_FREE(xlsub);
+		    SUPERLU_FREE(xlusup);
+		    SUPERLU_FREE(xusub);
+		}
+		SUPERLU_FREE(Glu->expanders);
+		Glu->expanders = NULL;
 		return (smemory_usage(nzlmax, nzumax, nzlumax, n) + n);
 	    }
 #if ( PRNTlevel >= 1)
@@ -300,6 +313,8 @@ sLUMemInit(fact_t fact, void *work, int_t lwork, int m, int n, int_t annz,
 	nzlumax  = Glu->nzlumax;
 	
 	if ( lwork == -1 ) {
+	    SUPERLU_FREE(Glu->expanders); /* size query keeps nothing */
+	    Glu->expanders = NULL;
 	    return ( GluIntArray(n) * iword + TempSpace(m, panel_size)
 		    + (nzlmax+nzumax)*iword + (nzlumax+nzumax)*dword + n );
         } else if ( lwork == 0 ) {
@@ -334,8 +349,11 @@ sLUMemInit(fact_t fact, void *work, int_t lwork, int m, int n, int_t annz,
     Glu->nzlumax = nzlumax;
     
     info = sLUWorkInit(m, n, panel_size, iwork, dwork, Glu);
-    if ( info )
+    if ( info ) {
+	SUPERLU_FREE(Glu->expanders);
+	Glu->expanders = NULL;
 	return ( info + smemory_usage(nzlmax, nzumax, nzlumax, n) + n);
+    }
     
     ++Glu->num_expansions;
     return 0;
